@@ -516,6 +516,37 @@ def oracle_case(c):
     return None
 
 
+def gen_pairwise_case(rng):
+    n = rng.randint(3, 30)
+    ne = rng.randint(2, 40)
+    return dict(n=n, slots=[rng.randint(0, 2 * n) for _ in range(n)], src=[rng.randrange(n) for _ in range(ne)], trg=[rng.randrange(n) for _ in range(ne)],
+                seed=rng.randint(0, 100), trace='mp_%d' % rng.randint(0, 10**6), history=gen_history(rng), via=rng.choice(['dist', 'container']),
+                perm=rng.sample(range(n), n), keep=sorted(rng.sample(range(ne), rng.randint(1, ne))))
+
+
+def oracle_pairwise(c):
+    """ Pairwise (transmission) draws on the real `ss.multi_random`: the number attached to an edge depends only on the two agents'
+        SLOTS -- not on the other edges of the call, and not on the agents' uids (the same slots under another uid labelling). """
+    import starsim as ss
+    slots = np.array(c['slots']); src = np.array(c['src']); trg = np.array(c['trg']); perm = np.array(c['perm']); keep = np.array(c['keep'])
+    def pair(slots_, s_, t_):
+        mr = ss.multi_random('source', 'target')
+        for d, nm in zip(mr.dists, ('source', 'target')):
+            d.init(trace=f"{c['trace']}_{nm}", seed=c['seed'], sim=Sim0(slots_), slots=slots_)
+            play_history(d, c['history'], via=c.get('via', 'dist'))
+        return np.asarray(mr.rvs(ss.uids(s_), ss.uids(t_)))
+    sig = dict(oracle='pairwise-depends-on-more-than-slots')
+    full = pair(slots, src, trg)
+    sub = pair(slots, src[keep], trg[keep])
+    if not same(sub, full[keep]):
+        return dict(signature=dict(sig, relation='edge-subset'), what=f'multi_random: the numbers of edges {keep[:6].tolist()} change when the other edges are left out of the call')
+    slots2 = np.empty_like(slots); slots2[perm] = slots          # agent u is now called perm[u] and keeps its slot
+    rel = pair(slots2, perm[src], perm[trg])
+    if not same(rel, full):
+        return dict(signature=dict(sig, relation='uid-relabel'), what='multi_random: the numbers of the edges change when the agents get other uids but keep their slots')
+    return None
+
+
 def oracle_extension(cfg):
     """ Sim level: n agents vs n+k agents where the extras can neither transmit nor be infected (slot-keyed networks) """
     import starsim as ss
@@ -687,6 +718,12 @@ def search(ctx):
         ctx.count('oracle_cases')
         if f:
             ctx.fail(f['signature'], f['what'], dict(kind='case', case=c))
+    for _ in range(ctx.budget(25, 200)):
+        c = gen_pairwise_case(ctx.rng)
+        f = oracle_pairwise(c)
+        ctx.count('oracle_pairwise_cases')
+        if f:
+            ctx.fail(f['signature'], f['what'], dict(kind='pairwise', case=c))
     for i in range(ctx.budget(5, 20)):
         c = gen_long_case(ctx.rng, families, i)
         try:
@@ -727,6 +764,8 @@ def search(ctx):
 def replay(ctx, data):
     if data.get('kind') == 'case':
         return oracle_case(data['case']) is not None
+    if data.get('kind') == 'pairwise':
+        return oracle_pairwise(data['case']) is not None
     if data.get('kind') == 'long_run':
         return oracle_long_run(data['cfg']) is not None
     if data.get('kind') == 'extension':
